@@ -1087,6 +1087,11 @@ class CaseRun:
                 rec = self.calls[i][0]
                 sa, sk = self._sent_payload(i)
                 R.count("endpoint_args_compared")
+                if case["procs"][inv["proc"]]["style"] == "method":
+                    R.count("bound_object_compared")
+                    R.seen("object_truth", "%s/%s" % (case["procs"][inv["proc"]].get("truth") or "plain", "falsy" if self.falsy_at_call[i] else "truthy"))
+                    if self.falsy_at_call[i]:
+                        R.count("falsy_object_invocations")
                 if rec["args"] != sa or not rec["bound_ok"]:
                     V("endpoint-args-mismatch", "positional", "endpoint got args=%s, caller sent %s (bound object ok: %s)" % (
                         short(rec["args"]), short(sa), rec["bound_ok"]), i, fold_transport=True)
@@ -1096,6 +1101,11 @@ class CaseRun:
                 proc = case["procs"][inv["proc"]]
                 if proc.get("det") is not None:
                     R.count("details_compared")
+                    if inv.get("rp_false") and not inv.get("rp"):
+                        R.count("explicit_false_receive_progress_checked")
+                        if plan.get("progress"):
+                            R.count("explicit_false_progressive_endpoint")
+                            R.seen("progress_idiom", "unconditional" if plan.get("progress_unconditional") else "if-details.progress")
                     snap = rec["det"]
                     c = inv.get("caller") or {}
                     want_det = {"type": "CallDetails", "caller": c.get("caller"), "caller_authid": c.get("caller_authid"),
